@@ -338,10 +338,27 @@ func (codecStream) Execute(c Case) {
 		for _, enc := range []struct{ key, name, file string }{{"json", "t.json", "t.json"}, {"yaml", "t.yaml", "t.yaml"}, {"noext", "t", "t.yaml"}} {
 			dir := filepath.Join(codecRoot, enc.key)
 			cache, _ := cdi.NewCache(cdi.WithSpecDirs(dir), cdi.WithAutoRefresh(false))
+			// the name has a past: a longer Spec (the same one with more devices and a long string) was written under it
+			// before, and the file has a second hard link (a backup made with ln); what is read back afterwards is the
+			// Spec written last, and the backup still holds the earlier one
+			longer := *s
+			longer.Devices = append(append([]specs.Device{}, s.Devices...), specs.Device{Name: "zz-earlier-1", ContainerEdits: specs.ContainerEdits{Env: []string{"EARLIER=" + strings.Repeat("e", 700)}}},
+				specs.Device{Name: "zz-earlier-2", ContainerEdits: specs.ContainerEdits{Env: []string{"EARLIER=2"}}})
+			var earlier []byte
+			if cache.WriteSpec(&longer, enc.name) == nil {
+				earlier, _ = os.ReadFile(filepath.Join(dir, enc.file))
+				_ = os.Link(filepath.Join(dir, enc.file), filepath.Join(dir, "backup-link"))
+			}
 			if err := cache.WriteSpec(s, enc.name); err != nil {
 				obs[enc.key] = "unwritable"
 				continue
 			}
+			if kept, err := os.ReadFile(filepath.Join(dir, "backup-link")); earlier != nil && (err != nil || string(kept) != string(earlier)) {
+				obs[enc.key] = "altered" // the write went into the old file instead of replacing it
+				_ = os.Remove(filepath.Join(dir, "backup-link"))
+				continue
+			}
+			_ = os.Remove(filepath.Join(dir, "backup-link"))
 			obs[enc.key] = rtStatus(s, filepath.Join(dir, enc.file))
 			if enc.key == "noext" {
 				continue
